@@ -1,45 +1,49 @@
 #!/usr/bin/env python3
-"""Validate a seeded change produced in a scratch worktree and keep it under /verif/seeded/<id>/.
-usage: tools/keep_seed.py <seed-id> <worktree> <property> [extra properties to run...]"""
+"""Validate a seeded change (SEED/patch.diff + SEED/demo.py produced in a scratch worktree) in a FRESH worktree of /repo HEAD
+and keep it under /verif/seeded/<id>/.   usage: tools/keep_seed.py <seed-id> <dir-with-SEED> <property> [extra properties...]"""
 import json, os, shutil, subprocess, sys, time
 VERIF = os.path.dirname(os.path.dirname(os.path.abspath(__file__)))
-sid, wt, prop = sys.argv[1:4]
+sid, src, prop = sys.argv[1:4]
 extra = sys.argv[4:]
-env = {**os.environ, "PYTHONPATH": os.path.join(wt, "src")}
-def run(cmd, **kw):
-    return subprocess.run(cmd, cwd=wt, env=env, capture_output=True, text=True, **kw)
-seed = os.path.join(wt, "SEED")
-ran = []
-t = run(["/venv/bin/python", "-m", "pytest", "-q", "-p", "no:cacheprovider", "--timeout=600"])
-tests_ok = t.returncode == 0
-ran.append(f"repo tests with change: {'pass' if tests_ok else 'FAIL'} ({t.stdout.strip().splitlines()[-1] if t.stdout.strip() else ''})")
-d1 = run(["/venv/bin/python", "SEED/demo.py"], timeout=300)
-ran.append(f"demo with change: exit {d1.returncode}")
-st = run(["git", "stash", "push", "--", "src"])
+seed = os.path.join(src, "SEED")
+wt = f"/tmp/val-{sid}"
+subprocess.run(["git", "-C", "/repo", "worktree", "remove", "--force", wt], capture_output=True)
+subprocess.run(["git", "-C", "/repo", "worktree", "add", "--detach", "-f", wt], check=True, capture_output=True)
 try:
+    shutil.copytree(seed, os.path.join(wt, "SEED"))
+    env = {**os.environ, "PYTHONPATH": os.path.join(wt, "src")}
+    def run(cmd, **kw):
+        return subprocess.run(cmd, cwd=wt, env=env, capture_output=True, text=True, **kw)
+    ran = []
     d0 = run(["/venv/bin/python", "SEED/demo.py"], timeout=300)
-    ran.append(f"demo without change: exit {d0.returncode}")
+    ran.append(f"demo on the unchanged tree: exit {d0.returncode}")
+    a = run(["git", "apply", "SEED/patch.diff"])
+    ran.append(f"git apply SEED/patch.diff: exit {a.returncode} {a.stderr.strip()[:200]}")
+    t = run(["/venv/bin/python", "-m", "pytest", "-q", "-p", "no:cacheprovider", "--timeout=600"])
+    tests_ok = t.returncode == 0
+    ran.append(f"repo tests with change: {'pass' if tests_ok else 'FAIL'} ({t.stdout.strip().splitlines()[-1] if t.stdout.strip() else ''})")
+    d1 = run(["/venv/bin/python", "SEED/demo.py"], timeout=300)
+    ran.append(f"demo with change: exit {d1.returncode}")
+    results = {}
+    for c in [prop] + extra:
+        r = subprocess.run([os.path.join(VERIF, "check"), c], capture_output=True, text=True,
+                           env={**os.environ, "VERIF_REPO": wt, "VERIF_EVIDENCE_DIR": f"/tmp/seedev-{sid}/evidence"})
+        results[c] = {0: "held (MISSED)" if c == prop else "held", 1: "VIOLATION", 2: "inconclusive"}.get(r.returncode, str(r.returncode))
+        first = [l for l in r.stdout.splitlines() if l.startswith("# ")][:2]
+        ran.append(f"./check {c} (quick, VERIF_REPO=<fresh worktree with patch>): {results[c]} {' | '.join(first)[:300]}")
+    ok = a.returncode == 0 and tests_ok and d1.returncode != 0 and d0.returncode == 0
+    print("\n".join(ran)); print("VALID SEED" if ok else "INVALID SEED")
+    if ok:
+        dst = os.path.join(VERIF, "seeded", sid)
+        os.makedirs(dst, exist_ok=True)
+        for f in ("patch.diff", "demo.py", "notes.md"):
+            if os.path.exists(os.path.join(seed, f)):
+                shutil.copy(os.path.join(seed, f), os.path.join(dst, f))
+        notes = open(os.path.join(seed, "notes.md")).read() if os.path.exists(os.path.join(seed, "notes.md")) else ""
+        json.dump({"id": sid, "breaks_property": prop, "needs_to_manifest": notes.strip()[:1500], "what_i_ran": ran, "check_results": results,
+                   "validated_at": time.strftime("%Y-%m-%d %H:%M"), "repo_head": subprocess.run(["git", "-C", "/repo", "log", "--format=%h", "-1"], capture_output=True, text=True).stdout.strip()},
+                  open(os.path.join(dst, "meta.json"), "w"), indent=1)
 finally:
-    run(["git", "stash", "pop"])
-chk = subprocess.run(["git", "apply", "--check", "-R", os.path.join(seed, "patch.diff")], cwd=wt, capture_output=True, text=True)
-ran.append(f"patch.diff matches the applied change: {chk.returncode == 0}")
-results = {}
-for c in [prop] + extra:
-    r = subprocess.run([os.path.join(VERIF, "check"), c], capture_output=True, text=True,
-                       env={**os.environ, "VERIF_REPO": wt, "VERIF_EVIDENCE_DIR": f"/tmp/seedev-{sid}/evidence"})
-    results[c] = {0: "held (MISSED)" if c == prop else "held", 1: "VIOLATION", 2: "inconclusive"}.get(r.returncode, str(r.returncode))
-    first = [l for l in r.stdout.splitlines() if l.startswith("# ")][:2]
-    ran.append(f"./check {c} (quick, VERIF_REPO=worktree): {results[c]} {' | '.join(first)[:300]}")
-ok = tests_ok and d1.returncode != 0 and d0.returncode == 0
-print("\n".join(ran)); print("VALID SEED" if ok else "INVALID SEED")
-if ok:
-    dst = os.path.join(VERIF, "seeded", sid)
-    os.makedirs(dst, exist_ok=True)
-    for f in ("patch.diff", "demo.py", "notes.md"):
-        if os.path.exists(os.path.join(seed, f)):
-            shutil.copy(os.path.join(seed, f), os.path.join(dst, f))
-    notes = open(os.path.join(seed, "notes.md")).read() if os.path.exists(os.path.join(seed, "notes.md")) else ""
-    json.dump({"id": sid, "breaks_property": prop, "needs_to_manifest": notes.strip()[:1500], "what_i_ran": ran, "check_results": results,
-               "validated_at": time.strftime("%Y-%m-%d %H:%M"), "repo_head": subprocess.run(["git", "-C", "/repo", "log", "--format=%h", "-1"], capture_output=True, text=True).stdout.strip()},
-              open(os.path.join(dst, "meta.json"), "w"), indent=1)
-shutil.rmtree(f"/tmp/seedev-{sid}", ignore_errors=True)
+    subprocess.run(["git", "-C", "/repo", "worktree", "remove", "--force", wt], capture_output=True)
+    shutil.rmtree(wt, ignore_errors=True)
+    shutil.rmtree(f"/tmp/seedev-{sid}", ignore_errors=True)
